@@ -54,6 +54,23 @@ def entrySettingsClap (args : List String) : String :=
 /-- `settings-default` -/
 def entrySettingsDefault (_ : List String) : String := showConstructed (.ok Settings.default)
 
+/-- `settings-eff <read> <write> <connect> <retries>` / `settings-eff none`: what the sockets and the retry loops are
+handed — the values of the three `*_or_default(s)` helpers -/
+def entrySettingsEff (args : List String) : String :=
+  let show_ (t : Option Timeout) : String :=
+    let rw := readAndWriteOrDefaults t
+    s!"EFF r{showOpt showDur rw.1} w{showOpt showDur rw.2} c{showOpt showDur (connectOrDefault t)} n{retriesOrDefault t}"
+  match args with
+  | ["none"] => show_ none
+  | [r, w, c, n] => match parseDurArg r, parseDurArg w, parseDurArg c, n.toNat? with
+    | some r, some w, some c, some n =>
+      match Settings.new r w c n with
+      | .ok t => show_ (some t)
+      | .err k => "ERR " ++ k.name
+      | .crash => "CRASH"
+    | _, _, _, _ => "bad-case"
+  | _ => "bad-case"
+
 def allErrKinds : List ErrKind :=
   [.packetOverflow, .packetUnderflow, .packetBad, .packetSend, .packetReceive, .decompress, .socketConnect, .socketBind,
    .invalidInput, .badGame, .autoQuery, .protocolFormat, .unknownEnumCast, .jsonParse, .typeParse, .hostLookup]
@@ -74,6 +91,6 @@ def entryGather (args : List String) : String :=
 
 def settingsEntries : List (String × (List String → String)) :=
   [("settings-new", entrySettingsNew), ("settings-serde", entrySettingsSerde), ("settings-clap", entrySettingsClap),
-   ("settings-default", entrySettingsDefault), ("gather", entryGather)]
+   ("settings-default", entrySettingsDefault), ("settings-eff", entrySettingsEff), ("gather", entryGather)]
 
 end Gd.Run
